@@ -47,8 +47,19 @@ def sec_case(long=False):
                                   "mode": st.sampled_from(SEC_MODES)})
 
 
+ACRES = ["(40.10)", " (39.80)", "[38.5]", " [40]", "(0.5)", " (123.456)"]
+
+
 def lot_case(long=False):
-    return st.fixed_dictionaries({"lst": L.long_rendered_list("lot", 999) if long else L.rendered_list("lot", 999), "prior": st.sampled_from(LOT_PRIOR)})
+    return st.fixed_dictionaries({"lst": L.long_rendered_list("lot", 999) if long else L.rendered_list("lot", 999), "prior": st.sampled_from(LOT_PRIOR),
+                                  # stated acreages (with or without a space in front) do not change which lots a list names
+                                  "acres": st.lists(st.sampled_from([None, None, None] + ACRES), min_size=40, max_size=40)})
+
+
+def lot_text(c):
+    items = c["lst"]["items"]
+    acres = {str(i): a for i, a in enumerate((c.get("acres") or [])[:len(items)]) if a and items[i][0] == "single"}
+    return L.render(items, c["lst"]["r"], acres)
 
 
 def validate(c):
@@ -93,6 +104,10 @@ def classes(c):
     if any("\n" in x for k in ("connect", "through") for x in r[k][:len(items)]):
         out.append("wraps_onto_next_line")
     out.append("items>=25" if len(items) >= 25 else "items>=7" if len(items) >= 7 else "items<=6")
+    if any(r.get("zpad") or []):
+        out.append("zero_padded_number")
+    if "acres" in c and any(a and items[i][0] == "single" for i, a in enumerate(c["acres"][:len(items)])):
+        out.append("with_acreage")
     return out
 
 
@@ -130,6 +145,10 @@ def sec_oracle(c):
     cfg = mode.replace(":nocolon", "")
     if mode.endswith(":nocolon") and c["layout"] in ("TRS_desc", "S_desc_TR"):
         full = full.replace(": NE/4", " NE/4")          # the cautious mode picks a colon-less section up in its second pass
+    # the tracts an uncommitted parse returns are one per expanded section as well
+    dry = PLSSDesc(full, config=cfg, wait_to_parse=True).parse(commit=False)
+    if [t.sec for t in dry] != exp:
+        fails.append(Failure("plss_secs_uncommitted", f"PLSSDesc({full!r}, wait_to_parse=True).parse(commit=False) returned sections {[t.sec for t in dry]}, expected {exp}", text=full))
     d = PLSSDesc(full, config=cfg)
     secs = [t.sec for t in d.tracts]
     if secs != exp:
@@ -152,7 +171,7 @@ def sec_oracle(c):
 
 def lot_oracle(c):
     items, r = c["lst"]["items"], c["lst"]["r"]
-    text = L.render(items, r)
+    text = lot_text(c)
     nums = L.expand(items)
     exp = [f"L{n}" for n in nums]
     fails = []
@@ -176,6 +195,14 @@ def lot_oracle(c):
         fails.append(Failure("ilots_after_late_parse", f"Tract({text!r}): ilots {before} before and {late.ilots} after parse(), expected [] and {nums}", text=text))
     if t.qqs:
         fails.append(Failure("lots_spurious_qq", f"Tract({text!r}).qqs = {t.qqs}, expected none", text=text))
+    # the same list as the description block of a PLSSDesc tract: same lots, same warning on the tract
+    d = PLSSDesc(f"T154N-R97W Sec 14: {text}", parse_qq=True)
+    if len(d.tracts) == 1:
+        pt = d.tracts[0]
+        if list(pt.lots) != exp or list(pt.ilots) != nums:
+            fails.append(Failure("lots_via_plssdesc", f"PLSSDesc tract for {text!r}: lots {pt.lots} / ilots {pt.ilots}, expected {exp}", text=text))
+        elif ("nonsequential_lots" in pt.w_flags) != L.has_descending(items):
+            fails.append(Failure("nonsequential_lots_via_plssdesc", f"PLSSDesc tract for {text!r}: nonsequential_lots present={'nonsequential_lots' in pt.w_flags}, expected {L.has_descending(items)}; w_flags={pt.w_flags}", text=text))
     want_flag = L.has_descending(items)
     got_flag = "nonsequential_lots" in t.w_flags
     if want_flag != got_flag:
@@ -189,7 +216,7 @@ def render_sec(c):
 
 
 def render_lot(c):
-    return {"text": L.render(c["lst"]["items"], c["lst"]["r"]), "expected": L.expand(c["lst"]["items"])}
+    return {"text": lot_text(c), "expected": L.expand(c["lst"]["items"])}
 
 
 SUBS = [
@@ -199,7 +226,7 @@ SUBS = [
                    "prior=copy_all", "prior=sec_colon_required", "two_lists", "mode=sec_colon_cautious:nocolon", "mode=segment") + tuple(LAYOUTS)),
     Sub("lots", lot_oracle, strategy=lambda tier: lot_case(), nontrivial=nontrivial, classes=classes, render=render_lot, validate=validate,
         n={"quick": 1200, "thorough": 30000}, shards={"quick": 8, "thorough": 16},
-        essential=("has_descending", "keyword_after_through", "three_digit")),
+        essential=("has_descending", "keyword_after_through", "three_digit", "with_acreage", "zero_padded_number")),
     # long lists (a whole township of sections written out, long lot schedules)
     Sub("long_sections", sec_oracle, strategy=lambda tier: sec_case(True), nontrivial=nontrivial, classes=classes, render=render_sec, validate=validate,
         n={"quick": 120, "thorough": 3000}, shards={"quick": 4, "thorough": 16}, essential=("items>=25", "items>=7")),
